@@ -18,6 +18,7 @@ from fractions import Fraction
 from vf import refsem
 from vf.envs import base_env
 from vf.exact import NCPoly
+from vf.explore import bfs
 from vf.run import Check, Res
 from vf.spec import C, Call, FDiv, Pow, Prod, Quot, Rem, Sub, Sum, V, build, show, to_spec
 
@@ -28,6 +29,17 @@ EXPR_KINDS = {
     "Remainder": Rem(X, C(3)), "Power": Pow(X, C(2)), "Call": Call(V("f"), X),
     "Subscript": Sub(V("arr"), X),
 }
+# composite operands that are falsy (their value is provably zero), and truthy ones that contain
+# a falsy term: the zero / one short-cuts of the operators test truth values
+FALSY_KINDS = {
+    "FDiv0": FDiv(C(0), X), "Rem0": Rem(C(0), X), "Quot0": Quot(C(0), X), "Prod0": Prod(C(0), X),
+    "Sum1Falsy": ("Sum", ("tuple", FDiv(C(0), X))),
+    "SumWithFalsy": Sum(C(5), Prod(C(-1), FDiv(C(0), X))),
+    "SumWithProd0": Sum(Y, Prod(C(0), X)),
+    "ProdWithFalsySum": Prod(C(2), Sum(C(5), Rem(C(0), X))),
+    "QuotOfProd0": Quot(Prod(C(0), X), C(2)),
+}
+EXPR_KINDS.update(FALSY_KINDS)
 NUM_KINDS = {"0": 0, "1": 1, "-1": -1, "2": 2, "0.0": 0.0, "1.0": 1.0, "2.5": 2.5, "True": True,
              "False": False}
 REDUCED = ["Var", "Var2", "Sum", "Product2", "Quotient", "Power", "0", "1", "-1", "2", "2.5"]
@@ -212,6 +224,75 @@ def check_prog(prog, r=None, nc=False):
     return None
 
 
+# {{{ histories of constant-class (un)registration
+
+class MyFrac(Fraction):
+    """a number class of the user's, derived from one that may get registered (closed under
+    negation, which x - h relies on)"""
+
+    def __neg__(self):
+        return MyFrac(-self.numerator, self.denominator)
+
+
+REG_CLASSES = {"Fraction": Fraction, "MyFrac": MyFrac}
+REG_USES = {"x*h": lambda x, h: x * h, "h+x": lambda x, h: h + x, "x-h": lambda x, h: x - h,
+            "h/x": lambda x, h: h / x}
+REG_MENU = [*[(a, c) for c in REG_CLASSES for a in ("register", "unregister")],
+            *[("use", u, c) for c in REG_CLASSES for u in REG_USES]]
+
+
+def show_reg(op):
+    return f"{op[0]}({op[1]})" if op[0] != "use" else f"{op[1]} with h={op[2]}(1,2)"
+
+
+def run_reg_history(hist):
+    """Replay a history of register_constant_class / unregister_constant_class / operator uses;
+    the model is the list of registered classes; the global table is restored afterwards."""
+    import pymbolic.primitives as p
+    saved = p.VALID_CONSTANT_CLASSES
+    model = []
+    x = p.Variable("x")
+    try:
+        for n, op in enumerate(hist):
+            if op[0] == "register":
+                p.register_constant_class(REG_CLASSES[op[1]])
+                model.append(op[1])
+            elif op[0] == "unregister":
+                if op[1] not in model:
+                    return None, "n/a"              # not enabled in this state
+                p.unregister_constant_class(REG_CLASSES[op[1]])
+                model.remove(op[1])
+            else:
+                h = REG_CLASSES[op[2]](1, 2)
+                is_const = any(isinstance(h, REG_CLASSES[c]) for c in model)
+                where = f"after {' ; '.join(show_reg(o) for o in hist[:n]) or 'nothing'}"
+                if bool(p.is_constant(h)) != is_const:
+                    return ("registration:is-constant", f"{where}: is_constant({h!r}) is "
+                            f"{p.is_constant(h)}, registered classes are {model}"), None
+                try:
+                    tree = REG_USES[op[1]](x, h)
+                except (TypeError, AssertionError):
+                    if is_const:
+                        return ("registration:refused", f"{where}: {op[1]} with h = {h!r} raised "
+                                f"TypeError although {model} are registered"), None
+                    continue
+                if not is_const:
+                    return ("registration:accepted", f"{where}: {op[1]} with h = {h!r} built "
+                            f"{tree!r} although only {model} are registered"), None
+                from pymbolic.mapper.evaluator import evaluate
+                for vx in (Fraction(3), Fraction(-2, 3)):
+                    want = REG_USES[op[1]](vx, Fraction(1, 2))
+                    got = evaluate(tree, {"x": vx})
+                    if got != want:
+                        return ("registration:value", f"{where}: {op[1]} built {tree!r}, which "
+                                f"evaluates to {got!r} at x={vx}, plain value {want!r}"), None
+        return None, tuple(model)
+    finally:
+        p.VALID_CONSTANT_CLASSES = saved
+
+# }}}
+
+
 def subprograms(prog):
     if isinstance(prog, str):
         return
@@ -233,7 +314,12 @@ class C03(Check):
             "thorough: all 12x12 operator pairs); + - * programs over free non-commutative generators; "
             "ordering comparisons in both orders; call / subscript / attribute / comparison / "
             "logical constructor methods; flattened_sum / flattened_product / linear_combination / "
-            "quotient on all operand lists of length <= 3. Each over the box {-2..3, 1/2, -3/2}^2 (quick: 6 values). "
+            "quotient on all operand lists of length <= 3 (the caller's list must come back untouched and "
+            "a second call with it, a tuple or an iterator must build the same tree); two-operator "
+            "programs around 9 falsy or falsy-containing composite operands (0 // x, 0 % x, 0 / x, "
+            "0 * x, 5 - 0 // x ...); all histories up to depth 3 (thorough 4) of register / "
+            "unregister_constant_class and operator uses for two number classes (Fraction and a "
+            "subclass) against a list model. Each over the box {-2..3, 1/2, -3/2}^2 (quick: 6 values). "
             "Non-trivial = the plain computation is defined in at least one environment; distinct "
             "= distinct programs.")
     assumptions = [
@@ -270,6 +356,28 @@ class C03(Check):
                         continue
                     yield ("prog", ("bin", o2, ("bin", o1, l, m), r))
                     yield ("prog", ("bin", o1, l, ("bin", o2, m, r)))
+
+        def falsy():
+            ops = ["+", "-", "*", "**", "//"] if tier == "quick" else \
+                ["+", "-", "*", "/", "**", "//", "%"]
+            side = ["Var2", "2", "1"] if tier == "quick" else ["Var2", "Sum", "2", "1", "0", "-1"]
+            for o1, o2 in itertools.product(ops, repeat=2):
+                for fk in FALSY_KINDS:
+                    for l, r in itertools.product(side, repeat=2):
+                        yield ("prog", ("bin", o2, ("bin", o1, l, fk), r))
+                        yield ("prog", ("bin", o2, ("bin", o1, fk, l), r))
+                        yield ("prog", ("bin", o1, l, ("bin", o2, fk, r)))
+                        yield ("prog", ("bin", o1, l, ("bin", o2, r, fk)))
+            # the shape the operators themselves build: constant - falsy, then used as an operand
+            for o1, o2 in itertools.product(["-", "+"], ops):
+                for fk in ("FDiv0", "Rem0", "Quot0", "Prod0"):
+                    for c, s in itertools.product(["2", "1", "0"], ["Var2", "2"]):
+                        yield ("prog", ("bin", o2, s, ("bin", o1, c, fk)))
+                        yield ("prog", ("bin", o2, ("bin", o1, c, fk), s))
+
+        def registration():
+            for depth_first in REG_MENU:
+                yield ("reg", depth_first)
 
         def noncomm():
             for o1, o2 in itertools.product("+-*", repeat=2):
@@ -315,7 +423,8 @@ class C03(Check):
             for l, r in itertools.product(kinds, repeat=2):
                 if r != "Rational" and l != "Rational":
                     yield ("smart", "quotient", (l, r))
-        return [("single", single), ("double", double), ("noncommutative", noncomm),
+        return [("single", single), ("double", double), ("falsy-operands", falsy),
+                ("constant-class-registration", registration), ("noncommutative", noncomm),
                 ("ordering", order), ("methods", methods), ("smart-constructors", smart)]
 
     def check_item(self, family, item, tier):
@@ -336,6 +445,34 @@ class C03(Check):
                         break
                 r.fail(f[0], f"{f[0]}|{sig_prog(culprit)}", f"in {show_prog(prog)}: {f[1]}",
                        witness=(mode, culprit))
+            return r
+        if mode == "reg":
+            depth = 3 if tier == "quick" else 4
+            first = tuple(item[1])
+
+            def step(hist):
+                r.evals += 1
+                return run_reg_history(hist)
+            # one item per first operation: the histories starting with it
+            viol, _ = run_reg_history((first,))
+            viols = [((first,), *viol)] if viol else []
+            if not viol:
+                ex = bfs(REG_MENU, step, depth, canon=lambda h: h, root=(first,))
+                r.count("states", ex.states)
+                r.count("transitions", ex.transitions)
+                r.count("histories", ex.transitions)
+                r.count("max_depth", ex.max_depth)
+                viols = ex.violations
+            r.keys.append(item)
+            for hist, k, detail in viols:
+                r.fail(k, f"{k}|{' ; '.join(show_reg(o) for o in hist)}", detail,
+                       witness=("reghist", hist))
+            return r
+        if mode == "reghist":
+            viol, _ = run_reg_history(tuple(tuple(o) for o in item[1]))
+            if viol:
+                r.fail(viol[0], f"{viol[0]}|{' ; '.join(show_reg(tuple(o)) for o in item[1])}",
+                       viol[1])
             return r
         if mode == "order":
             _, op, l, r_ = item
@@ -408,7 +545,10 @@ class C03(Check):
         tspec = derationalise(to_spec(tree))
         r.keys.append((m, k, other))
         for env in envs():
-            a, b = plain(k, env), plain(other, env)
+            try:
+                a, b = plain(k, env), plain(other, env)
+            except ZeroDivisionError:
+                continue
             try:
                 if callable(plainf):
                     want = plainf(a, b)
@@ -441,15 +581,38 @@ class C03(Check):
         import pymbolic.primitives as p
         nc = mode == "smart-nc"
         ops = [operand(k) for k in combo]
-        try:
+        saved = list(ops)
+
+        def call(container):
             if fn == "flattened_sum":
-                tree = p.flattened_sum(ops)
+                return p.flattened_sum(container(ops))
             elif fn == "flattened_product":
-                tree = p.flattened_product(ops)
+                return p.flattened_product(container(ops))
             elif fn == "linear_combination":
-                tree = p.linear_combination([ops[0], ops[2]], [ops[1], ops[3]])
-            else:
-                tree = p.quotient(ops[0], ops[1])
+                return p.linear_combination(container([ops[0], ops[2]]),
+                                            container([ops[1], ops[3]]))
+            return p.quotient(ops[0], ops[1])
+        try:
+            # the caller's own list goes in: it must come back untouched, and a second call with
+            # it, or with a tuple / iterator of the same operands, must build the same tree
+            tree = call(lambda seq: ops if len(seq) == len(ops) else seq)
+            if len(ops) != len(saved) or any(a is not b for a, b in zip(ops, saved)):
+                r.fail("smart-argument-modified", f"smart-argument-modified|{fn}|{','.join(combo)}",
+                       f"{fn} changed the list it was given: {len(saved)} operands went in, the "
+                       f"caller's list now has {len(ops)}")
+                return r
+            first = to_spec(tree)
+            for cname, container in (("same list again", lambda seq: ops if len(seq) == len(ops)
+                                      else seq), ("tuple", tuple), ("iterator", iter)):
+                if fn == "linear_combination" and cname == "iterator":
+                    continue
+                again = to_spec(call(container))
+                r.evals += 1
+                if again != first:
+                    r.fail("smart-call-history", f"smart-call-history|{fn}|{','.join(combo)}",
+                           f"{fn}({list(combo)}) built {show(first)} from the caller's list, but "
+                           f"{show(again)} when called with: {cname}")
+                    return r
         except (TypeError, AssertionError, ZeroDivisionError):
             r.count("refused")
             return r
@@ -467,7 +630,10 @@ class C03(Check):
             return r
         r.keys.append((fn, combo))
         for env in ([nc_env()] if nc else envs()):
-            vals = [plain(k, env) for k in combo]
+            try:
+                vals = [plain(k, env) for k in combo]
+            except ZeroDivisionError:
+                continue
             try:
                 if fn == "flattened_sum":
                     want = 0
